@@ -8,8 +8,9 @@ Model of the HTTP request parser: `HttpContext::parseRequest` / `processRequestL
 extended to a drain driver that keeps calling the parser until it makes no progress.
 
 From `Generated/Http.lean` (current source): the method table and its fall-back, the test
-`setMethod` returns, the three separators of the request line, the version test (length,
-prefix, last-character table), the header separator, the number of bytes consumed behind
+`setMethod` returns, the three separators of the request line, the test on the
+request-target (`targetAccepted`, over pointer offsets) and its byte predicate `isControl`,
+the version test (length, prefix, last-character table), the header separator, the number of bytes consumed behind
 a line, the enums, and which parse states have a (non-empty) arm in the `while (hasMore)`
 loop.  Hand-written: the pointer walk of `processRequestLine`, the trimming loops of
 `addHeader`, `std::map`, `Buffer::findCRLF`, the loops.
@@ -27,6 +28,9 @@ def findCRLF : Bytes → Option Nat
 
 /-- `std::find(first, last, ch) - first` -/
 def find (ch : UInt8) (l : Bytes) : Nat := (l.takeWhile (· != ch)).length
+
+/-- `std::find_if(first, last, pred) - first` -/
+def findIf (p : UInt8 → Bool) (l : Bytes) : Nat := (l.takeWhile (fun b => !p b)).length
 
 /-- `HttpRequest::setMethod(start, end)`: the value `method_` gets -/
 def setMethod (tok : Bytes) : Method :=
@@ -76,16 +80,19 @@ def processRequestLine (line : Bytes) : Option Line :=
   | none => none
   | some (m, rest) =>
     if methodAccepted (setMethod m) then          -- && request_.setMethod(start, space)
-      match splitAt targetSep rest with           -- start = space+1; space = find(start, end, ' ')
-      | none => none
-      | some (target, ver) =>
-        match versionOf ver with                  -- start = space+1; the version test
+      -- start = space+1 (`rest` = [start, end)); space = find(start, end, ' ');
+      -- question = find(start, space, '?'); the test on the target [start, space)
+      if targetAccepted (find targetSep rest) rest.length
+          (find querySep (rest.take (find targetSep rest)))
+          (findIf (fun b => decide (isControl b)) (rest.take (find targetSep rest))) then
+        match versionOf (rest.drop (find targetSep rest + 1)) with   -- start = space+1; the version test
         | none => none
         | some v =>
           some { method := setMethod m
-                 path := target.take (find querySep target)     -- question = find(start, space, '?')
-                 query := target.drop (find querySep target)
+                 path := (rest.take (find targetSep rest)).take (find querySep (rest.take (find targetSep rest)))
+                 query := (rest.take (find targetSep rest)).drop (find querySep (rest.take (find targetSep rest)))
                  version := v }
+      else none
     else none
 
 /-- C `isspace` in the "C" locale -/
